@@ -6,6 +6,15 @@ from rdkit.Chem.rdchem import GetPeriodicTable
 from rdkit.Chem.rdchem import PeriodicTable
 from itertools import product as itpd
 from .. RINGParser import Read
+import os
+
+# verification hook (work-list trace); only filled when PGRADD_VERIF is set
+_verif_events = []
+
+
+def _verif(event, mol=None):
+    if os.environ.get('PGRADD_VERIF'):
+        _verif_events.append((event, mol))
 
 
 def GenerateRxnNet(initial_reactant, reaction_rules):
@@ -81,10 +90,12 @@ def GenerateRxnNet(initial_reactant, reaction_rules):
     while unprocessed:
         # Pop a molecule and put it in a processed list
         reactant0 = unprocessed[0]
+        _verif('pop', reactant0)
         processed.insert(0, unprocessed[0])
         del unprocessed[0]
         # go through all reactions
         for reaction_rule in reaction_rules:
+            _verif('rule')
             # set up reactant list.
             # Generate combinatorial product list of reactants if reaction
             # requires several reactants
@@ -151,6 +162,7 @@ def GenerateRxnNet(initial_reactant, reaction_rules):
                             inthelist = 1
                             break
                     # not in the processed list. append to unprocessed
+                    _verif('push' if inthelist == 0 else 'skip', mol1)
                     if inthelist == 0:
                         unprocessed.insert(0, mol1)
     # Prettify
